@@ -131,6 +131,10 @@ func Formats(thorough bool) []format {
 		{"callgrind", []string{"callgrind"}}, {"callgrind,call_tree", []string{"callgrind", "call_tree"}},
 		{"tags", []string{"tags"}}, {"traces", []string{"traces"}}, {"raw", []string{"raw"}},
 		{"proto", []string{"proto"}}, {"topproto", []string{"topproto"}},
+		{"dot,tagleaf", []string{"dot", "tagleaf=k"}}, {"tree,cum,lines", []string{"tree", "cum", "lines"}},
+		// pages of the web UI (the body served by the handler)
+		{"web/top", []string{"web:/top"}}, {"web/flamegraph", []string{"web:/flamegraph"}}, {"web/peek", []string{"web:/peek?f=."}},
+		{"web/top,lines", []string{"web:/top?g=lines"}}, {"web/source", []string{"web:/source?f=."}},
 	}
 	if thorough {
 		fs = append(fs, format{"tree,files", []string{"tree", "files"}}, format{"dot,addresses", []string{"dot", "addresses"}},
@@ -214,6 +218,12 @@ func observe(r *drive.Result) string {
 func exploreOne(c *vk.Ctx, in input, f format, data map[string][]byte, bound int) {
 	var last string
 	body := func() {
+		if strings.HasPrefix(f.flags[0], "web:") {
+			r := drive.Web(data, []string{"p"})
+			code, b, pan := drive.Get(r.Handlers, "GET", strings.TrimPrefix(f.flags[0], "web:"))
+			last = fmt.Sprintf("%d %v\n%s\nUIERR:%v", code, pan, b, r.UI.Errs)
+			return
+		}
 		r := drive.Report(data, []string{"p"}, f.flags...)
 		last = observe(r)
 	}
